@@ -57,6 +57,18 @@ def _case(draw, tier):
     n = draw(st.sampled_from([1, 1, 2]))
     kw = dict(max_elements=7 if big else 5, max_parallel_tasks=4, max_clients=4, meta=False, ramp_up=False)
     specs = [draw(S.schedule_specs(**kw)) for _ in range(n)]
+    if n == 2 and draw(st.booleans()):
+        # the challenges of a track share most of their tasks: the second one is the first with other tags on some of its tasks
+        specs[1] = copy.deepcopy(specs[0])
+        for leaf in S.leaves(specs[1]):
+            if draw(st.booleans()):
+                choice = draw(st.sampled_from(["drop", "str", "list"]))
+                if choice == "drop":
+                    leaf.pop("tags", None)
+                elif choice == "str":
+                    leaf["tags"] = draw(st.sampled_from(S.TAGS))
+                else:
+                    leaf["tags"] = draw(st.lists(st.sampled_from(S.TAGS), min_size=1, max_size=2, unique=True))
     flt = None
     if draw(st.integers(0, 11)) != 7:
         flt = draw(S.filter_specs(specs[0]))
